@@ -30,6 +30,9 @@ type ChainCfg struct {
 	Full    bool   `json:"full"`            // build inside a real simulation.Simulation
 	DRAMQ   int    `json:"dramq,omitempty"` // 0 = preset queue sizes, 1 = tiny queues (2 transactions, 2 commands)
 	Ways    int    `json:"ways,omitempty"`  // cache associativity (0 = CacheWays)
+	// SlowEvict: write-back caches may have one victim write-back in flight and
+	// the ideal memory is 12 cycles slower, so victim write-backs queue up.
+	SlowEvict bool `json:"slow_evict,omitempty"`
 }
 
 // Name is a compact label.
@@ -41,6 +44,9 @@ func (c ChainCfg) Name() string {
 	w := ""
 	if c.Ways != 0 {
 		w = fmt.Sprintf("/w%d", c.Ways)
+	}
+	if c.SlowEvict {
+		w += "/slowevict"
 	}
 	return fmt.Sprintf("%s%sx%d/b%d/l%d/m%d/e%v%s", s, c.Memory, c.NumMem, c.PortBuf, c.Lat, c.MSHR, c.Eager, w)
 }
@@ -118,6 +124,9 @@ func BuildChain(cfg ChainCfg, ops []MemOp) *Chain {
 			spec := idealmemcontroller.DefaultSpec()
 			spec.Capacity = 1 * mem.MB
 			spec.Latency = cfg.Lat + 1
+			if cfg.SlowEvict {
+				spec.Latency += 12
+			}
 			spec.Width = 2
 			c := idealmemcontroller.MakeBuilder().WithRegistrar(env).WithSpec(spec).Build(name)
 			comp, st = c, c.Resources().Storage
@@ -185,6 +194,9 @@ func BuildChain(cfg ChainCfg, ops []MemOp) *Chain {
 			spec.WriteBufferCapacity = 2
 			spec.MaxInflightFetch = 2
 			spec.MaxInflightEviction = 2
+			if cfg.SlowEvict {
+				spec.MaxInflightEviction = 1
+			}
 			c := writeback.MakeBuilder().WithRegistrar(env).WithSpec(spec).
 				WithResources(writeback.Resources{AddressToPortMapper: below}).Build(name)
 			ch.WB = append([]*writeback.Comp{c}, ch.WB...)
